@@ -395,6 +395,70 @@ class SimFS:
 # ---------------------------------------------------------------------------------------------
 # process-global state of the package under test
 # ---------------------------------------------------------------------------------------------
+class Ambient:
+    """Process-global state of the interpreter and of third-party libraries that numerical code can read or
+    change: numpy's floating-point error handling, print options and legacy global random state, Python's global
+    random state, the warnings filters, matplotlib's rcParams and the environment. `capture()` returns a token,
+    `restore(token)` puts that state back."""
+
+    @staticmethod
+    def capture():
+        import os as _os
+        import random as _random
+        import warnings as _warnings
+
+        tok = {
+            "err": np.geterr(),
+            "print": np.get_printoptions(),
+            "nprand": np.random.get_state(),
+            "pyrand": _random.getstate(),
+            "filters": list(_warnings.filters),
+            "environ": dict(_os.environ),
+        }
+        try:
+            import matplotlib as _mpl
+
+            tok["rc"] = dict(_mpl.rcParams)
+        except Exception:  # pragma: no cover
+            pass
+        return tok
+
+    @staticmethod
+    def restore(tok):
+        import os as _os
+        import random as _random
+        import warnings as _warnings
+
+        np.seterr(**tok["err"])
+        po = dict(tok["print"])
+        try:
+            np.set_printoptions(**po)
+        except TypeError:  # pragma: no cover - option names differ between numpy versions
+            po.pop("override_repr", None)
+            np.set_printoptions(**po)
+        np.random.set_state(tok["nprand"])
+        _random.setstate(tok["pyrand"])
+        if _warnings.filters != tok["filters"]:
+            _warnings.filters[:] = tok["filters"]
+            try:
+                _warnings._filters_mutated()
+            except Exception:
+                pass
+        if dict(_os.environ) != tok["environ"]:
+            for k in list(_os.environ):
+                if k not in tok["environ"]:
+                    del _os.environ[k]
+            for k, v in tok["environ"].items():
+                if _os.environ.get(k) != v:
+                    _os.environ[k] = v
+        if "rc" in tok:
+            import matplotlib as _mpl
+
+            if dict(_mpl.rcParams) != tok["rc"]:
+                dict.clear(_mpl.rcParams)
+                dict.update(_mpl.rcParams, tok["rc"])
+
+
 class GlobalStateGuard:
     """Lets the *reference* execution of an algorithm see the package's module-level and class-level
     state exactly as it was right after import ("runs alone"), while the history under test keeps the
@@ -417,6 +481,7 @@ class GlobalStateGuard:
         self.owners = []  # (owner object, {name: pristine deep copy})
         self.defaults = []  # (mutable default object, pristine deep copy)
         self.caches = []
+        self.ambient = Ambient.capture()  # third-party / interpreter state right after import
         try:
             from pydantic import BaseModel
         except Exception:  # pragma: no cover
@@ -471,7 +536,8 @@ class GlobalStateGuard:
 
     def enter(self):
         """Switch the package to its pristine state; returns the token needed to switch back."""
-        token = {"attrs": [], "defaults": []}
+        token = {"attrs": [], "defaults": [], "ambient": Ambient.capture()}
+        Ambient.restore(self.ambient)
         for owner, pristine in self.owners:
             cur = vars(owner)
             for name in [n for n, v in list(cur.items()) if not n.startswith("__") and type(v) in self._PLAIN]:
@@ -508,3 +574,14 @@ class GlobalStateGuard:
                 pass
         for obj, content in token["defaults"]:
             self._assign_in_place(obj, content)
+        Ambient.restore(token["ambient"])
+
+    def reset(self):
+        """Start of a history = a fresh process as far as plain package-level, class-level and third-party
+        global state goes: histories do not inherit such state from the ones that ran before in the same worker
+        (state the guard cannot see still makes a replay depend on its predecessors; see `pre_seeds`)."""
+        self.enter()
+
+    def reset_ambient(self):
+        """Start of a history: whatever an earlier history left in third-party global state is gone."""
+        Ambient.restore(self.ambient)
